@@ -355,6 +355,31 @@ def unit_mismatch(z, u, slack):
     return abs(ref_cdf_upper(z) - (1.0 - u)) > 2.3e-16 + 1e-9 * (1.0 - u) + slack
 
 
+def mono_noise(fam, lo, hi, mean, sigma, v1, v2):
+    """Is the decrease v1 -> v2 (v2 < v1) explained by last-bit noise of the special functions?  scipy's
+    ndtr(sqrt2*erfinv(.)) is monotone only up to about one ulp of the probability; the transforms scale that noise by
+    the width (uniform), by ln(10)*decades (log-uniform), by sigma (gaussian families).  Accuracy of the special
+    functions is a hypothesis of the theorems, not a subject of this check."""
+    if not (math.isfinite(v1) and math.isfinite(v2)):
+        return False
+    m = max(abs(v1), abs(v2))
+    if fam == "uniform":
+        return v1 - v2 <= 8e-16 * (hi - lo) + 4 * ulp(m) + 1.01e-14   # + one rounding step of the 14-decimal grid
+    if fam == "loguniform":
+        if not (v1 > 0 and v2 > 0 and math.isfinite(hi / lo)):
+            return False
+        dec = math.log10(hi / lo)
+        return v1 - v2 <= m * (8e-16 * 2.31 * (dec + abs(math.log10(lo)) + abs(math.log10(hi))) + 2e-15)
+    if fam == "gaussian":
+        z = abs(v1 - mean) / sigma
+        return v1 - v2 <= sigma * 8e-16 * max(1.0, z) + 4 * ulp(m) + 4 * ulp(mean)
+    if not (v1 > 0 and v2 > 0):
+        return False
+    y = math.log(v1)
+    z = abs(y - mean) / sigma
+    return v1 - v2 <= m * (sigma * 8e-16 * max(1.0, z) + 4.5e-16 * (2 + abs(y) + abs(mean)))
+
+
 class Failures:
     def __init__(self):
         self.items = []   # (kind, message)
@@ -430,6 +455,11 @@ def oracle_prior(c, r):
                 if not v > 0:
                     continue
                 tol = 1e-15 + 1e-13 * min(u, 1 - u) + 1e-15 * (2 + abs(math.log(v)) + abs(mean)) / sigma
+            # nan = the recomputed unit argument fell outside the clamp window [-1e-14, 1+1e-14] of transform.ndtri; that is
+            # within the conditioning error of the computation when u is this close to an end (narrow log-uniform ranges)
+            cond = tol - 1.01e-14
+            if math.isnan(w) and fam == "loguniform" and (u + cond > 1 + 1e-14 or u - cond < -1e-14):
+                continue
             if not abs(w - u) <= tol:
                 F.add("inverse", "unit_value_for(value_for(%r)) = %r (value %r), off by %.3g > %.3g" % (u, w, v, abs(w - u), tol))
         elif t == "unit":
@@ -480,7 +510,7 @@ def oracle_prior(c, r):
     for name, table in (("message value", raw_at), ("returned value", val_at), ("returned value (limits ignored)", ign_at)):
         pts = sorted((unhex(uh), v) for uh, v in table.items() if v is not None and 0.0 <= unhex(uh) <= 1.0 and not math.isnan(v))
         for (u1, v1), (u2, v2) in zip(pts, pts[1:]):
-            if v2 < v1:
+            if v2 < v1 and not mono_noise(fam, lo, hi, mean, sigma, v1, v2):
                 F.add("monotone", "%s decreases: f(%r) = %r > f(%r) = %r" % (name, u1, v1, u2, v2))
                 break
     # quantile of the declared distribution (only for values that were returned through the gate)
